@@ -275,6 +275,32 @@ theorem step_of (env : Env) (rules : Bool) (items : List Int) (hi : ∀ y ∈ it
   simp only [List.reverse_reverse, List.append_nil] at hp
   simp only [step, hst, hp]
 
+theorem floor_ge_iff (a n : Nat) (k : Int) (hn : 0 < n) : (((a / n : Nat) : Int) ≥ k) ↔ ((a : Int) ≥ k * (n : Int)) := by
+  rw [Int.natCast_ediv]
+  exact Int.le_ediv_iff_mul_le (by omega)
+
+/-- OP_OF_PERCENT (integer form, after the repair of F44) against the specification's exact `P%`, for every integer P -/
+theorem w_pct (vq : Val) (t n : Nat) (hn : n ≠ 0) (hv : ValOk .int vq) :
+    pctResult (toVm vq) t n = toVm (pctHolds t n vq) := by
+  rcases hv with rfl | ⟨k, rfl, hk⟩
+  · simp [pctResult, toVm, pctHolds, isU, isUndef_UNDEF]
+  · have hn0 : (n == 0) = false := by simp [hn]
+    simp only [pctResult, toVm, pctHolds, isU, isUndef_of_ne hk, hn0, Bool.or_self, Bool.false_eq_true, if_false]
+    congr 1
+    apply decide_eq_decide.mpr
+    have := floor_ge_iff (t * 100) n k (by omega)
+    simpa using this
+
+theorem step_ofPercent (env : Env) (rules : Bool) (items : List Int) (hi : ∀ y ∈ items, isU y = false) (qw : Int)
+    (pc : Nat) (st mem : List Int) (its : List Iter) :
+    step env (.ofPercent rules) ⟨pc, (items.reverse ++ ([UNDEF] ++ [qw])) ++ st, mem, its⟩ =
+      some ⟨pc + 1, pctResult qw (if rules then items.countP (fun v => v != 0)
+                                  else items.countP fun sv => !(matchesOfStr env sv).isEmpty) items.length :: st, mem, its⟩ := by
+  have hst : (items.reverse ++ ([UNDEF] ++ [qw])) ++ st = items.reverse ++ UNDEF :: (qw :: st) := by simp
+  have hp := popToMarker_spec items.reverse [] (qw :: st) (fun y hy => hi y (by simpa using hy))
+  simp only [List.reverse_reverse, List.append_nil] at hp
+  simp only [step, hst, hp]
+
 theorem step_ofFoundIn (env : Env) (items : List Int) (hi : ∀ y ∈ items, isU y = false) (qw lo hi' : Int)
     (pc : Nat) (st mem : List Int) (its : List Iter) :
     step env .ofFoundIn ⟨pc, ([hi'] ++ [lo]) ++ ((items.reverse ++ ([UNDEF] ++ [qw])) ++ st), mem, its⟩ =
@@ -695,8 +721,44 @@ theorem exec_loopfree (env : Env) (henv : EnvOk env) (code : List Instr) :
       rw [count_strset env set (fun ms => ms.any fun m => m.1 == a)]
       exact w_of q _ _ _ (List.countP_le_length) (fun h => ⟨by have := wf_typed env c l qe (hwq h).1; rwa [(hwq h).2.1] at this, (hwq h).2.2⟩)
   | .flt _, _, _, _, hw => by simp [WF] at hw
-  | .pctStr _ _, _, _, hl, _ => by simp [loopFree] at hl
-  | .pctRules _ _, _, _, hl, _ => by simp [loopFree] at hl
+  | .pctStr p set, c, l, hl, hw => by
+    apply RunsV.ofExact
+    simp only [WF] at hw
+    obtain ⟨hwp, htp, hne⟩ := hw
+    have hq := (exec_loopfree env henv code p c l (by simpa [loopFree] using hl) hwp).exact (by rw [htp]; decide)
+    have hm : Runs env code [Instr.pushU] c l true [UNDEF] := Runs.push1 _ _ (fun _ _ _ _ _ => rfl)
+    have hs := runs_strset (env := env) (code := code) (c := c) (l := l) (pure := true) set
+    have hcode : compile c (.pctStr p set) =
+        ((compile c p ++ [Instr.pushU]) ++ set.map fun n => Instr.push (encStr n)) ++ [.ofPercent false] := by
+      simp [compile]
+    rw [hcode]
+    simp only [eval]
+    have hrun := Runs.op (.ofPercent false) _ _ (Runs.seq (Runs.seq hq hm) hs)
+      (step_ofPercent env false (set.map encStr) (by intro y hy; simp only [List.mem_map] at hy; obtain ⟨n, _, rfl⟩ := hy; exact isU_encStr n) _)
+    refine Runs.val1 ?_ hrun
+    simp only [Bool.false_eq_true, if_false, List.length_map]
+    rw [count_strset env set (fun ms => !ms.isEmpty)]
+    show pctResult _ (set.countP (strFound env)) _ = _
+    exact w_pct _ _ _ (by simpa using hne) (by have := wf_typed env c l p hwp; rwa [htp] at this)
+  | .pctRules p set, c, l, hl, hw => by
+    apply RunsV.ofExact
+    simp only [WF] at hw
+    obtain ⟨hwp, htp, hne⟩ := hw
+    have hq := (exec_loopfree env henv code p c l (by simpa [loopFree] using hl) hwp).exact (by rw [htp]; decide)
+    have hm : Runs env code [Instr.pushU] c l true [UNDEF] := Runs.push1 _ _ (fun _ _ _ _ _ => rfl)
+    have hs := runs_ruleset (env := env) (code := code) (c := c) (l := l) (pure := true) set
+    have hcode : compile c (.pctRules p set) =
+        ((compile c p ++ [Instr.pushU]) ++ set.map fun k => Instr.pushRule k) ++ [.ofPercent true] := by
+      simp [compile]
+    rw [hcode]
+    simp only [eval]
+    have hrun := Runs.op (.ofPercent true) _ _ (Runs.seq (Runs.seq hq hm) hs)
+      (step_ofPercent env true (set.map fun k => b2i (env.rules.getD k false))
+        (by intro y hy; simp only [List.mem_map] at hy; obtain ⟨n, _, rfl⟩ := hy; exact isUndef_b2i _) _)
+    refine Runs.val1 ?_ hrun
+    simp only [if_true, List.length_map]
+    rw [count_ruleset env set]
+    exact w_pct _ _ _ (by simpa using hne) (by have := wf_typed env c l p hwp; rwa [htp] at this)
   | .forRange .., _, _, hl, _ => by simp [loopFree] at hl
   | .forEnum .., _, _, hl, _ => by simp [loopFree] at hl
   | .forOf .., _, _, hl, _ => by simp [loopFree] at hl
